@@ -45,6 +45,7 @@ func mustLoad(repo string) *Prog {
 		os.Exit(2)
 	}
 	p.ComputeModSets()
+	p.ComputeParamRooted()
 	p.ComputeExecReach()
 	p.ComputeInitOnly()
 	p.ComputeAppendOnly()
